@@ -288,6 +288,26 @@ fn diagnostics(report: &Report, tier: Tier) {
         let symbols: Vec<usize> = (0..probs.len()).collect();
         diag_check!(report, n, m, probs, 8, symbols, "ContiguousCategoricalEntropyModel<u8,8> (PRECISION == Probability::BITS)");
     }
+    // non-contiguous models at PRECISION == Probability::BITS (2^PRECISION does not fit the probability type)
+    for probs in [vec![1u8, 255], vec![128, 128], vec![85, 85, 86], vec![1, 1, 1, 253]] {
+        let labels: Vec<u32> = (0..probs.len() as u32).map(|i| 100 - i * 7).collect();
+        let d = NonContiguousCategoricalDecoderModel::<u32, u8, _, 8>::from_symbols_and_nonzero_fixed_point_probabilities(labels.iter().copied(), probs.iter().copied(), false).unwrap();
+        diag_check!(report, n, d, probs, 8, labels, "NonContiguousCategoricalDecoderModel<u32,u8,8> (PRECISION == Probability::BITS)");
+        let e = NonContiguousCategoricalEncoderModel::<u32, u8, 8>::from_symbols_and_nonzero_fixed_point_probabilities(labels.iter().copied(), probs.iter().copied(), false).unwrap();
+        let q: Vec<f64> = probs.iter().map(|&p| p as f64 / 256.0).collect();
+        n += 1;
+        if !close(e.entropy_base2::<f64>(), textbook(&q, &q).h, 1e-9) {
+            report.violation(Violation { identity: "model diagnostics | NonContiguousCategoricalEncoderModel::entropy_base2 differs from its textbook definition".into(), detail: format!("{:?} at PRECISION == Probability::BITS", probs), case: json!({"kind": "none"}) });
+        }
+    }
+    for probs in [vec![1u16, 65535], vec![32768, 32768], vec![21845, 21845, 21846]] {
+        let labels: Vec<u32> = (0..probs.len() as u32).map(|i| 100 - i * 7).collect();
+        let d = NonContiguousCategoricalDecoderModel::<u32, u16, _, 16>::from_symbols_and_nonzero_fixed_point_probabilities(labels.iter().copied(), probs.iter().copied(), false).unwrap();
+        diag_check!(report, n, d, probs, 16, labels, "NonContiguousCategoricalDecoderModel<u32,u16,16> (PRECISION == Probability::BITS)");
+        let m = ContiguousCategoricalEntropyModel::<u16, Vec<u16>, 16>::from_nonzero_fixed_point_probabilities(probs.iter().copied(), false).unwrap();
+        let symbols: Vec<usize> = (0..probs.len()).collect();
+        diag_check!(report, n, m, probs, 16, symbols, "ContiguousCategoricalEntropyModel<u16,16> (PRECISION == Probability::BITS)");
+    }
     for probs in [vec![1u32, (1 << 24) - 1], vec![1 << 23, 1 << 23], vec![5_000_000, 5_000_000, 6_777_216]] {
         let m = ContiguousCategoricalEntropyModel::<u32, Vec<u32>, 24>::from_nonzero_fixed_point_probabilities(probs.iter().copied(), false).unwrap();
         let symbols: Vec<usize> = (0..probs.len()).collect();
